@@ -176,6 +176,10 @@ static vbi_sliced OUTA[OUTN], OUTB[OUTN];
 #endif
 static struct cblog LOGA, LOGB;
 static int cb_ret = 1;
+/* EN 301 775 4.1: a VBI PES packet carries data of one and only one video frame, so a stream of n PES packets completes at most n frames.  The SEQ harnesses set
+   cb_max to their packet count; the assertion sits in the callback because a demultiplexer that keeps announcing frames without consuming input never returns
+   (cbmc then only reports an unwinding assertion, for which cbmc 6.11 cannot produce a trace: `--property <loop>.unwind.N' is rejected as unknown). */
+static unsigned cb_max = ~0u;
 
 static vbi_bool log_cb(vbi_dvb_demux *dx, void *ud, const vbi_sliced *sliced, unsigned int n, int64_t pts)
 {
@@ -183,6 +187,7 @@ static vbi_bool log_cb(vbi_dvb_demux *dx, void *ud, const vbi_sliced *sliced, un
   V_ASSERT((dx == &DXA && l == &LOGA) || (dx == &DXB && l == &LOGB), "cb_args");
   V_ASSERT(sliced == dx->frame.sliced_begin, "cb_sliced_is_frame_buffer");
   V_ASSERT(n <= OUTN, "cb_lines_within_buffer");
+  V_ASSERT(l->calls < cb_max, "cb_at_most_one_frame_per_pes_packet");
   if (l->calls < LOGN) {
     l->n[l->calls] = n; l->pts[l->calls] = pts;
     for (i = 0; i < OUTN; i++) if (i < n) l->lines[l->calls][i] = sliced[i];
@@ -324,6 +329,11 @@ static const uint8_t SHAPES[][2][3][2] = {
   { { {0x80, 0x00}, {0xB5, 0xE0 | 21}, {0xC1, 0xFF} }, { {0xB5, 0xC0 | 21}, {0xB5, 0xC0 | 21}, {0xFF, 0xFF} } },
   /* 5: first unit of packet 2 fully symbolic (thorough; output array byte-backed, see OUT_BYTES) */
   { { {0x02, 0xE0 | 7}, {0x03, 0xE0 | 8}, {0xFF, 0xFF} }, { {0x00, 0x00}, {0xFF, 0xFF}, {0xFF, 0xFF} } },
+  /* 6: Teletext units with line_offset 0 (undefined line, EN 300 472 4.5.2), second field in a PES packet of its own: the field toggle at the start of
+        packet 2 starts a new frame (frame 1 delivered with PTS1), both units of packet 2 are stored with line 0 */
+  { { {0x02, 0xE0 | 0}, {0x02, 0xE0 | 0}, {0xFF, 0xFF} }, { {0x02, 0xC0 | 0}, {0x02, 0xC0 | 0}, {0xFF, 0xFF} } },
+  /* 7: as 6 after defined lines in the first field */
+  { { {0x02, 0xE0 | 7}, {0x02, 0xE0 | 8}, {0xFF, 0xFF} }, { {0x02, 0xC0 | 0}, {0xFF, 0xFF}, {0x02, 0xC0 | 0} } },
 };
 #define P1LINES (SHAPE == 1 || SHAPE == 3 ? 3u : SHAPE == 4 ? 1u : 2u)
 
@@ -350,6 +360,7 @@ static void build_stream(void)
 V_HARNESS(h_split_equiv)
 {
   V_INIT();
+  cb_max = NPK;
   build_stream(); CANARY = in_u16();
   setup(&DXA, OUTA, &LOGA, TS, PID); setup(&DXB, OUTB, &LOGB, TS, PID);
   V_ASSERT(vbi_dvb_demux_feed(&DXA, STREAM, SLEN), "whole_feed_ok");
@@ -379,6 +390,7 @@ V_HARNESS(h_bytewise_equiv)
 {
   unsigned i;
   V_INIT();
+  cb_max = NPK;
   build_stream(); CANARY = in_u16();
   setup(&DXA, OUTA, &LOGA, TS, PID); setup(&DXB, OUTB, &LOGB, TS, PID);
   V_ASSERT(vbi_dvb_demux_feed(&DXA, STREAM, SLEN), "whole_feed_ok");
@@ -393,6 +405,7 @@ V_HARNESS(h_cor_equiv)
 {
   static vbi_sliced got[OUTN]; const uint8_t *bp; unsigned left, n, i, calls = 0, it; int64_t pts = 0;
   V_INIT();
+  cb_max = NPK;
   build_stream(); CANARY = in_u16();
   setup(&DXA, OUTA, &LOGA, TS, PID); setup(&DXB, OUTB, &LOGB, TS, PID);
   DXB.callback = NULL;
@@ -529,6 +542,7 @@ V_HARNESS(h_recovery)
   static uint8_t pay[4][42], ptsb[4][5]; unsigned i, k, found = 0; uint8_t *d;
   V_INIT();
   in_bytes(pay, sizeof pay); in_bytes(ptsb, sizeof ptsb); CANARY = in_u16();
+  cb_max = 4;
   good_packet(RS, 1, pay[3], ptsb[3], 0xE0 | (DKIND == 8 ? 8 : 7));
   d = RS + (TS ? 4 : 0);
   switch (DKIND) {
@@ -543,6 +557,12 @@ V_HARNESS(h_recovery)
   default: break;
   }
   for (k = 0; k < 3; k++) good_packet(RS + (k + 1) * TSP, 2 + k, pay[k], ptsb[k], 0xE0 | 7);
+#if TS && defined(TSJUMP)
+  /* TS damage: transport packets of the PID were lost (or the counter otherwise jumps) between D (counter 1) and A: A, B, C carry the continuity counters
+     cA, cA+1, cA+2, cA = TSJUMP on the runner grid (2: nothing lost; 1: A looks like a repetition of D; a symbolic cA forks every packet three ways:
+     no verdict in 600 s).  A is the first frame after the damage and may be lost; B and C are intact packets with consecutive counters and must come through. */
+  { const unsigned cA = (TSJUMP) & 15; for (k = 0; k < 3; k++) RS[(k + 1) * TSP + 3] = (uint8_t) (0x10 | ((cA + k) & 15)); }
+#endif
   setup(&DXA, OUTA, &LOGA, TS, PID);
   V_ASSERT(vbi_dvb_demux_feed(&DXA, RS, RLEN), "recovery_feed_ok");
   check_inv(&DXA, OUTA);
